@@ -188,6 +188,30 @@ def emit_cpp(prog, opts=None):
             out.append('  if (VF_FLAG_AND(g_sm, %s)) m |= %d;' % (f, 1 << (8 + k)))
         out.append('  return m;\n}')
     out.append('__attribute__((noinline)) int vf_is_mp11(void) { return VF_IS_MP11; }')
+    # (machine index, back-end state id) -> catalogue state index
+    out.append('int vf_sidx(int mi, int id) {\n  switch (mi) {')
+    for m in prog.machines:
+        out.append('    case %d:' % m.idx)
+        for st in m.states.values():
+            tn = st.name if st.kind == 'sub' else '%s_::%s' % (m.name, st.name)
+            if st.kind == 'exit': tn = '%s::exit_pt<%s >' % (machine_type(prog, m), tn)
+            out.append('      if (id == VF_SID(%s, %s)) return %d;' % (machine_type(prog, m), tn, st.idx))
+        out.append('      return -1;')
+    out.append('    default: return -1;\n  }\n}')
+    # flattened active configuration (DFS from the root through active submachines): slot -> catalogue state index
+    out.append('__attribute__((noinline)) int vf_cfg(int slot) {\n  int n = 0;')
+    def cfg_rec(m, ind):
+        pad = '  ' * ind
+        for r in range(len(m.regions)):
+            out.append('%s{ int si = vf_sidx(%d, (int)VF_IDS(%s)[%d]); if (slot == n) return si; n++;' % (pad, m.idx, machine_obj(prog, m), r))
+            for st in m.states.values():
+                if st.kind == 'sub':
+                    out.append('%s  if (si == %d) {' % (pad, st.idx))
+                    cfg_rec(st.sub, ind + 2)
+                    out.append('%s  }' % pad)
+            out.append('%s}' % pad)
+    cfg_rec(prog.root, 1)
+    out.append('  return -2;\n}')
     out.append(opts.get('extern_c', ''))
     out.append('}')
     return '\n'.join(out) + '\n'
@@ -460,3 +484,72 @@ def conf_str(conf):
     if conf.queue: s += ' queue:%s' % (conf.queue,)
     if conf.deferred: s += ' deferred:%s' % (conf.deferred,)
     return s
+
+
+# ------------------------------------------------------------------ product harness (two configurations, no oracle)
+def emit_product_harness(prog, confs, steps, tag, maxslots=8):
+    """same prefix and the same symbolic step applied to configuration A and configuration B of one program;
+    asserts equal logs, equal handled/zero status and equal active configurations (by catalogue state index)"""
+    out = ['/* generated by vf/emit.py: product harness for %s (%s) */' % (prog.name, tag),
+           '#include "vf_product.h"']
+    index = []
+    for ci, (conf, script) in enumerate(confs):
+        out.append('void harness_p%d(void) {' % ci)
+        out.append('  vf_pinit();')
+        out.append('  vf_in_prefix = 1;')
+        for st, dec in script:
+            g = 0
+            for site, v in (dec or {}).items():
+                if v: g |= 1 << site
+            out.append('  vf_set_guards(0x%xu);' % g)
+            if st[0] == 'start': out.append('  VFA(vf_start)(); VFB(vf_start)();')
+            elif st[0] == 'stop': out.append('  VFA(vf_stop)(); VFB(vf_stop)();')
+            else:
+                k = prog.events.index(st[1])
+                out.append('  (void)VFA(vf_ev)(%d, 0); (void)VFB(vf_ev)(%d, 0);' % (k, k))
+        out.append('  vf_in_prefix = 0;')
+        out.append('  vf_compare_cfg("%s:prefix");' % tag)
+        my_steps = [st for st in steps if (st[0] == 'start') != conf.started]
+        my_ev = [st for st in my_steps if st[0] == 'ev']
+        others = [st for st in my_steps if st[0] != 'ev']
+        out.append('  uint32_t sel = vf_nondet(0); VF_ASSUME(sel < %d);' % ((1 if my_ev else 0) + len(others)))
+        out.append('  uint32_t kind = vf_nondet(1); VF_ASSUME(kind < %d);' % max(1, len(prog.events)))
+        out.append('#ifdef VF_KIND')
+        out.append('  kind = VF_KIND; vf_inputs[1] = kind;')
+        out.append('#endif')
+        out.append('  int32_t P = (int32_t)vf_nondet(2);')
+        cm = active_completion_sites(prog, conf)
+        out.append('#ifndef VF_GFIX_MASK')
+        out.append('#define VF_GFIX_MASK 0u')
+        out.append('#define VF_GFIX_VAL 0u')
+        out.append('#endif')
+        out.append('  vf_nondet_guards(VF_GFIX_MASK | 0x%xu, VF_GFIX_VAL & ~0x%xu);' % (cm, cm))
+        out.append('  vf_pn[0] = vf_pn[1] = 0; uint32_t ra = 0, rb = 0;')
+        alt = 0
+        if my_ev:
+            out.append('  if (sel == 0) {')
+            out.append('    VF_ASSUME(%s);' % ' || '.join('kind == %d' % prog.events.index(s[1]) for s in my_ev))
+            out.append('    ra = (uint32_t)VFA(vf_ev)(kind, P); rb = (uint32_t)VFB(vf_ev)(kind, P);')
+            out.append('    vf_compare_results(ra, rb, "%s");' % tag)
+            out.append('  }')
+            alt = 1
+        for st in others:
+            fn = 'vf_start' if st[0] == 'start' else 'vf_stop'
+            out.append('  if (sel == %d) { VFA(%s)(); VFB(%s)(); }' % (alt, fn, fn))
+            alt += 1
+        out.append('  vf_compare_logs("%s");' % tag)
+        out.append('  vf_compare_cfg("%s");' % tag)
+        out.append('  VF_WITNESS();')
+        out.append('}')
+        decs_by_kind = {}; npaths = 0
+        for st in my_ev:
+            paths = explore(prog, conf, lambda sem, st=st: run_step(sem, st))
+            npaths += len(paths)
+            decs_by_kind[prog.events.index(st[1])] = [[[site, v] for site, v in dec.items()] for dec, _, _, _ in paths]
+        index.append({'harness': 'harness_p%d' % ci, 'conf': conf_str(conf), 'script': [(list(st), dec) for st, dec in script],
+                      'paths': npaths, 'decs_by_kind': decs_by_kind})
+    out.append('#ifndef __CPROVER__')
+    out.append('void (*vf_harnesses[])(void) = {%s};' % ', '.join('harness_p%d' % i for i in range(len(confs))))
+    out.append('int vf_nharness = %d;' % len(confs))
+    out.append('#endif')
+    return '\n'.join(out) + '\n', index
